@@ -76,9 +76,22 @@ def raw_fxp(F, signed, n_word, n_frac, codes, shape=None, **kw):
     return x
 
 
+def cint(v):
+    """sizes computed from symbolic data (e.g. the word grown by an expanding shift) are concrete on every path: pin them"""
+    if isinstance(v, T.SInt):
+        return T.concretize(v)
+    if isinstance(v, T.SBool):
+        return bool(v)
+    return v if v is None or isinstance(v, bool) else int(v)
+
+
+def fmt_of(x):
+    return [bool(cint(x.signed)), cint(x.n_word), cint(x.n_frac)]
+
+
 def snap_fxp(x, with_value=True):
     d = dict(val=O.snap(x.val), status={k: bool(v) for k, v in x.status.items()}, dtype=x.dtype,
-             signed=x.signed, n_word=x.n_word, n_frac=x.n_frac, n_int=x.n_int)
+             signed=bool(cint(x.signed)), n_word=cint(x.n_word), n_frac=cint(x.n_frac), n_int=cint(x.n_int))
     if with_value:
         d['value'] = O.snap(x.get_val())
     return d
